@@ -343,3 +343,25 @@ func btoi(b bool) int {
 	}
 	return 0
 }
+
+// C02 (graph-focused part): dense and layered graphs, name order uncorrelated with dependency order.
+func TestC02Graphs(t *testing.T) {
+	cfg := &Cfg{Prop: "C02", MaxPipelines: 1, MaxTasks: 8, MinTasks: 4, MaxConc: 2, CyclicPct: 10, AllowFailPct: 15, ContinuePct: 60,
+		Shapes: []string{"dense", "dense", "layered", "layered", "random", "diamond"}, LimitChoices: []int{-1},
+		Weights: map[string]int{"schedule": 1}, Armed: map[string]bool{"C02": true}}
+	col := ev.Get("C02", "graphs", "graph-focused cases: one pipeline whose task graph has 4-8 tasks drawn from dense (edge probability 55% between any ordered pair) and three-layer shapes, names a random permutation of the pool (so the alphabetical order is uncorrelated with the dependency order), 10% cyclic; one or two jobs are scheduled and their tasks finished in a generated order with generated outcomes; oracle as in the main part: acyclic graphs are accepted and run to a plain success with every task executed once after its dependencies, cyclic ones run nothing and end canceled with an error; non-trivial = a task with >=2 dependencies ran in a job of >=4 tasks, or a cyclic job; distinct by action trace")
+	rapid.Check(t, func(rt *rapid.T) {
+		m := NewMachine(rt, cfg)
+		defer m.Close()
+		jobs := rapid.IntRange(1, 2).Draw(rt, "jobs")
+		for i := 0; i < jobs; i++ {
+			m.ActSchedule(rt)
+		}
+		for n := 0; n < 40 && len(m.openRuns()) > 0; n++ {
+			m.ActFinish(rt, 8)
+		}
+		m.Drain()
+		st := m.w.Stats
+		col.Add(strings.Join(m.w.Trace, "\n"), st.Classes["graph:fanin4"] > 0 || st.Classes["graph:cyclic"] > 0, st.Classes, st.Steps, m.w.Trace)
+	})
+}
